@@ -242,7 +242,35 @@ func (x *Unit) execAssign(st *State, s *ast.AssignStmt) {
 		if lv.kind == lvBlank {
 			continue
 		}
+		x.atAssign(st, s, s.Lhs[i], vals[i])
 		x.writeLV(st, lv, x.convert(st, vals[i], lv.typ))
+	}
+}
+
+// atAssign handles "at assign LHS assert|assume EXPR": the clause is evaluated in the state just before the store to the
+// location written LHS in the source (`value` names what is stored).
+func (x *Unit) atAssign(st *State, node ast.Node, lhs ast.Expr, v Val) {
+	var b *Block
+	for fr := x.fr; fr != nil && b == nil; fr = fr.parent {
+		b = x.eng.blockFor(x.pkg.PkgPath, fr.loopBase)
+	}
+	if b == nil || b != x.block {
+		return
+	}
+	text := strings.ReplaceAll(x.srcOf(lhs), " ", "")
+	for i, cl := range b.Clauses {
+		if cl.Kind != "at" || cl.AtKind != "assign" || cl.AtName != text {
+			continue
+		}
+		x.atSeen[i]++
+		c := x.bodySpecCtx(st, node)
+		c.names["value"] = v
+		g := x.specEval(st, cl.Expr, c)
+		if cl.AtAction == "assert" {
+			x.oblige(st, "at", "assign "+cl.AtName+":"+clauseLabel(cl, i), g.T, node)
+		} else {
+			x.assume(st, g.T)
+		}
 	}
 }
 
